@@ -29,6 +29,7 @@ type Val struct {
 	Tup []*Val
 	Clo *Closure
 	Src string // provenance: "pkg.Type.field" or "pkg.global" the value was loaded from
+	PatAlt string // for a map lookup used as a trigger: the matching domain lookup (alternative pattern)
 }
 
 const (
@@ -261,44 +262,58 @@ func topConjuncts(t string) []string {
 
 var splitMode = false
 
+// splitGoal: the top-level conjuncts of a goal (also below one implication and one quantifier);
+// proving each of them proves the goal.
+func splitGoal(goal string) (goals, descs []string) {
+	pre, body := "", goal
+	if strings.HasPrefix(goal, "(=> ") {
+		// (=> A B): split B
+		d, i := 0, 4
+		for ; i < len(goal); i++ {
+			if goal[i] == '(' {
+				d++
+			} else if goal[i] == ')' {
+				d--
+			}
+			if d == 0 && goal[i] == ' ' && i > 4 {
+				break
+			}
+			if d == 0 && goal[4] != '(' && goal[i] == ' ' {
+				break
+			}
+		}
+		if i < len(goal) {
+			pre, body = goal[4:i], goal[i+1:len(goal)-1]
+		}
+	}
+	cs := topConjuncts(body)
+	if len(cs) <= 1 {
+		return []string{goal}, []string{goal}
+	}
+	for _, c := range cs {
+		g := c
+		if pre != "" {
+			g = "(=> " + pre + " " + c + ")"
+		}
+		goals = append(goals, g)
+		descs = append(descs, c)
+	}
+	return
+}
+
 func (e *Enc) oblige(kind, label string, pc, goal string, props []string, pos token.Pos, detail string) *Obl {
 	if e.dry > 0 {
 		return nil
 	}
 	if splitMode && kind != "vacuity" {
 		// debugging aid: one obligation per top-level conjunct (also below one implication)
-		pre, body := "", goal
-		if strings.HasPrefix(goal, "(=> ") {
-			// (=> A B): split B
-			d, i := 0, 4
-			for ; i < len(goal); i++ {
-				if goal[i] == '(' {
-					d++
-				} else if goal[i] == ')' {
-					d--
-				}
-				if d == 0 && goal[i] == ' ' && i > 4 {
-					break
-				}
-				if d == 0 && goal[4] != '(' && goal[i] == ' ' {
-					break
-				}
-			}
-			if i < len(goal) {
-				pre, body = goal[4:i], goal[i+1:len(goal)-1]
-			}
-		}
-		cs := topConjuncts(body)
+		cs, ds := splitGoal(goal)
 		if len(cs) > 1 {
 			var last *Obl
-			for k, c := range cs {
-				g := c
-				if pre != "" {
-					g = "(=> " + pre + " " + c + ")"
-				}
+			for k, g := range cs {
 				sm := splitMode
 				splitMode = false
-				last = e.oblige(kind, fmt.Sprintf("%s/c%d", label, k+1), pc, g, props, pos, c)
+				last = e.oblige(kind, fmt.Sprintf("%s/c%d", label, k+1), pc, g, props, pos, ds[k])
 				splitMode = sm
 			}
 			return last
